@@ -55,12 +55,15 @@ def waiting : List Ev → List (Nat × Nat × Nat)
   | .done i _ _ :: rest => (waiting rest).filter fun x => x.1 != i
   | _ :: rest => waiting rest
 
+def wasPopped (older : List Ev) (id : Nat) : Bool :=
+  older.any fun | .pop i => i == id | _ => false
+
 /-- `j` was queued after the loop's most recent `pop i` (an arrival during the loop's attempt on `i`:
 the loop could not have chosen it). -/
 def queuedAfterPop : List Ev → Nat → Nat → Bool
   | [], _, _ => false
   | .pop k :: rest, i, j => if k == i then false else queuedAfterPop rest i j
-  | .queued k _ _ :: rest, i, j => if k == j then true else queuedAfterPop rest i j
+  | .queued k _ _ :: rest, i, j => if k == j then wasPopped rest i else queuedAfterPop rest i j
   | _ :: rest, i, j => queuedAfterPop rest i j
 
 /-- `a` was queued before `b` (both queued in `older`, most recent first). -/
@@ -177,8 +180,21 @@ the model see `eventually_verdict`. -/
 def holdsTimely (cfg : Cfg) (h : List Ev) : Bool :=
   scan (ttlUpperOk cfg) [] h && drainReleases h.reverse
 
+/-- (Q, observable consequence) the attached fixed-window quota admits at most `max` per window;
+windows are at least `win - 999 ms` long (the start is stored in whole seconds), so any interval
+shorter than that meets at most two windows: at most `2 max` requests are allowed within it.
+Evaluated by the judge on both sides; not a theorem here (the quota's window arithmetic is the
+subject of C01). -/
+def allowedSince (older : List Ev) (t span : Nat) : Nat :=
+  (older.filter fun | .done _ true t' => decide (t < t' + span) | _ => false).length
+
+def rateOk (cfg : Cfg) (older : List Ev) : Ev → Bool
+  | .done _ true t => decide ((allowedSince older t (cfg.win - 1000) + 1 : Int) ≤ 2 * max cfg.qmax 0)
+  | _ => true
+
 /-- The whole property C06 on a history (oldest first). -/
-def holds (cfg : Cfg) (h : List Ev) : Bool := holdsSafety cfg h && holdsTimely cfg h
+def holds (cfg : Cfg) (h : List Ev) : Bool :=
+  holdsSafety cfg h && holdsTimely cfg h && scan (rateOk cfg) [] h
 
 /-! ### The shared queue alone (level L1): every dequeue hands out a minimum -/
 
